@@ -51,7 +51,7 @@ API_ORDER = {
 
 
 def shards(tier, seed):
-    names = ['state', 'matrix', 'channel', 'space', 'f2', 'other-apis', 'cha']
+    names = ['state', 'matrix', 'channel', 'space', 'f2', 'other-apis', 'cha', 'seed-apis']
     if tier == 'thorough':
         names.append('repo-tests')
     return [{'name': n} for n in names]
@@ -730,6 +730,79 @@ def run_cha(ctx, mon, numqi):
                   {'fresh': float(a), 'reused_object': float(c)}, point='reproducible/pair')
 
 
+def run_seed_apis(ctx, mon, numqi):
+    """every OTHER public API with a `seed` parameter (the statement: "the same holds for every other API that accepts a seed"):
+    boundary / numerical-range searches of the gradient-descent models, subspace constructors, purification. Pair histories: the
+    same call twice with other consumers of randomness in between, on fresh objects and twice on the same object."""
+    import torch
+    rng = ctx.rng
+    E = numqi.entangle
+    ctx.workload('realistic')
+    T = ctx.tier == 'thorough'
+
+    def judge(api, a, b, ops, kind):
+        ctx.check(same(a, b), f'reproducible/{kind}/{api}', f'{api}(seed=s) called twice with the same arguments and seed gives different results ({kind})',
+                  {'first': a, 'second': b, 'interleaved': ops}, point='reproducible/pair')
+
+    def pair_api(api, make, call, seed):
+        """make() -> object or None; call(obj, seed) -> result"""
+        ctx.set_case({'api': api, 'seed': seed})
+        with ctx.guard(f'seed-api/{api}'):
+            try:
+                o1 = make()
+                a = call(o1, seed)
+                ops = noise(ctx, numqi, rng)
+                b = call(make(), seed)
+                ops2 = noise(ctx, numqi, rng)
+                c = call(o1, seed) if o1 is not None else None
+            except (AssertionError, RuntimeError, np.linalg.LinAlgError) as e:
+                ctx.inconclusive(f'seed-api-driver-error/{api}/{type(e).__name__}')
+                return
+            ctx.case('seed-api', api, seed, nontrivial=len(ops) > 0)
+            judge(api, a, b, ops, 'not-bit-identical')
+            if o1 is not None:
+                judge(api, a, c, ops2, 'depends-on-object-history')
+
+    for it in range(3 if not T else 10):
+        seed = int(rng.integers(2**31)) if it else 0
+        dA, dB = [(2, 2), (2, 3), (3, 2)][it % 3]
+        rho = numqi.random.rand_density_matrix(dA * dB, seed=int(rng.integers(2**31)))
+        op0 = numqi.random.rand_hermitian_matrix(dA * dB, seed=int(rng.integers(2**31)))
+        op1 = numqi.random.rand_hermitian_matrix(dA * dB, seed=int(rng.integers(2**31)))
+        nt = int(rng.integers(2, 5))
+        pair_api('AutodiffCHAREE.get_boundary', lambda: E.AutodiffCHAREE((dA, dB), num_state=2 * dA * dB),
+                 lambda m, s: m.get_boundary(rho, xtol=1e-2, converge_tol=1e-6, use_tqdm=False, seed=s), seed)
+        pair_api('AutodiffCHAREE.get_numerical_range', lambda: E.AutodiffCHAREE((dA, dB), num_state=2 * dA * dB),
+                 lambda m, s: m.get_numerical_range(op0, op1, num_theta=nt, converge_tol=1e-4, use_tqdm=False, seed=s), seed)
+        pair_api('PureBosonicExt.get_boundary', lambda: E.PureBosonicExt(dA, dB, kext=3),
+                 lambda m, s: m.get_boundary(rho, xtol=1e-2, converge_tol=1e-6, use_tqdm=False, seed=s), seed)
+        pair_api('PureBosonicExt.get_numerical_range', lambda: E.PureBosonicExt(dA, dB, kext=3),
+                 lambda m, s: m.get_numerical_range(op0, op1, num_theta=nt, converge_tol=1e-4, use_tqdm=False, seed=s), seed)
+        pair_api('utils.get_purification', lambda: None, lambda _, s: numqi.utils.get_purification(rho, dA * dB + int(rng.integers(0, 3)) * 0 + 2, seed=s), seed)
+        pair_api('pureb_quantum.get_mps_dicke_transform_matrix', lambda: None,
+                 lambda _, s: E.pureb_quantum.get_mps_dicke_transform_matrix(dB, 2 + it % 3, seed=s), seed)
+        for kind, dims in [('quant-ph/0409032', (2, 2, 2)), ('quant-ph/0409032', (2, 3, 2)), ('quant-ph/0405077', (2, 3)), ('quant-ph/0405077', (2, 2, 2))]:
+            pair_api(f'matrix_space.get_completed_entangled_subspace[{kind}]', lambda: None,
+                     lambda _, s: numqi.matrix_space.get_completed_entangled_subspace(dims, kind, seed=s), seed)
+
+        # optimize.check_model_gradient(model, seed=s): the parameter point it tests is drawn from the seed (observable: the model's parameters afterwards)
+        def grad_point(_, s):
+            m = numqi.manifold.Trace1PSD(3, rank=2, dtype=torch.complex128)
+            H = torch.tensor(op0[:3, :3] + op0[:3, :3].conj().T)
+
+            class L(torch.nn.Module):
+                def __init__(self):
+                    super().__init__()
+                    self.m = m
+
+                def forward(self):
+                    return torch.einsum('ab,ba->', self.m(), H).real
+            model = L()
+            numqi.optimize.check_model_gradient(model, seed=s)
+            return numqi.optimize.get_model_flat_parameter(model)
+        pair_api('optimize.check_model_gradient', lambda: None, grad_point, seed)
+
+
 def run(ctx, shard):
     import numqi
     mon = Mon(ctx, numqi)
@@ -742,6 +815,8 @@ def run(ctx, shard):
             run_other(ctx, mon, numqi)
         elif name == 'cha':
             run_cha(ctx, mon, numqi)
+        elif name == 'seed-apis':
+            run_seed_apis(ctx, mon, numqi)
         elif name == 'repo-tests':
             from vmon.repotests import run_repo_tests
             run_repo_tests(ctx, ['test_random.py', 'test_channel.py'])
